@@ -24,7 +24,7 @@ func isWhitespace(ch rune) bool {
 }
 
 func isIdent(ch rune) bool {
-	return ch != '[' && ch != ']' && ch != ';' && ch != '=' && ch != '\r' && ch != '\n' && !isWhitespace(ch)
+	return ch != '\r' && ch != '\n' && !isWhitespace(ch)
 }
 
 func isEndOfLine(ch rune) bool {
